@@ -47,10 +47,10 @@ Definition phase_code (p : phase) : nat :=
   match p with
   | PAccepted => 0 | PHasSvc => 1 | PAssigned => 2 | PFailed => 3 | PRunning => 4
   | PExited st => 4 + status_code st | PFinished st => 7 + status_code st | PDoneOk st => 10 + status_code st
-  | PDoneFail => 14
+  | PDoneFail => 14 | PStopping st => 14 + status_code st
   end.
 Definition conn_fp (c : conn) : list nat :=
-  [phase_code (c_phase c); o2n (c_svc c); o2n (c_asg c); o2n (c_used c); b2n (c_stop c); b2n (c_pclosed c);
+  [phase_code (c_phase c); o2n (c_svc c); o2n (c_asg c); o2n (c_used c); b2n (c_pclosed c);
    b2n (c_pfailed c); c_busy c].
 Definition acc_code (a : astat) : nat :=
   match a with Accepting => 0 | Waiting EClosing => 1 | Waiting EOther => 2 | Returned RNil => 3 | Returned RErr => 4 end.
